@@ -148,7 +148,7 @@ func (a *Authority) storage(faulty bool) storagei.Client {
 	if faulty {
 		return a.Disk
 	}
-	return &seams.SimDisk{R: a.R, Objects: a.Disk.Objects, Buckets: a.Disk.Buckets}
+	return &seams.SimDisk{R: a.R, Objects: a.Disk.Objects, Buckets: a.Disk.Buckets, FailCloseN: -1}
 }
 
 // newProcess builds fresh component objects over the durable state. faulty selects whether the
